@@ -1514,6 +1514,12 @@ class Interp:
                     parts.append("None")
                 elif getattr(self, "sym_strings", False):
                     from .docsim import sstr_of
+                    if isinstance(x, Obj) and x.cls is not None and x.cls.find_method("__str__") is not None:
+                        # formatting an object of the package: its own __str__ decides the text
+                        x = self.call_func(x.cls.find_method("__str__"), [], {}, v, self_obj=x)
+                        if isinstance(x, str):
+                            parts.append(x)
+                            continue
                     sx = sstr_of(x)
                     if sx is None:
                         return Opaque("str")
